@@ -381,7 +381,13 @@ def check_fit_with_statistics(res, fns, profile, h=None):
     res.paths += len(results)
     res.obligations += 1
     if m.panics:
-        res.violations.append({"property": res.prop, "engine": "M", "role": f"fws:panic:{profile}", "detail": f"reachable panic: {m.panics[0].panic}", "obligation": "no_panic", "replay": None})
+        # a panic path of the MIR under this engine's environment model (the model may fail at any call, coefficients may be
+        # absent): reported only if a native run with a model failure at some call index reproduces a panic
+        for far in (1, 2, 0, 3):
+            add_structural_violation(res, f"fws:panic:{profile}", f"reachable panic in fit_with_statistics: {m.panics[0].panic}", native=("faultsweep", dict(n=8, p=2, far=far)))
+            if any(v.get("role") == f"fws:panic:{profile}" for v in res.violations):
+                res.unconfirmed = [u for u in res.unconfirmed if u.get("role") != f"fws:panic:{profile}"]
+                break
     else:
         res.discharged += 1
     n_ok = 0
